@@ -255,7 +255,7 @@ def t_hoist(tree, rng):
     """operands of arithmetic in a return / assignment are named first:  return a(k) / (f(k) * s ** k)  ->  _h1 = a(k); _h2 = f(k); return _h1 / (_h2 * s ** k)
     (only operands reached through BinOp / UnaryOp from the statement's value, so nothing conditional is hoisted)"""
     done = False
-    counter = [0]
+    counter = [max([int(n.id[2:]) for n in ast.walk(tree) if isinstance(n, ast.Name) and n.id.startswith("_h") and n.id[2:].isdigit()], default=0)]
     for f in funcs(tree):
         for owner in ast.walk(f):
             if isinstance(owner, (ast.Lambda, ast.ClassDef)):
@@ -355,6 +355,13 @@ def t_addelse(tree, rng):
     return done
 
 
+def _next_index(tree, prefix):
+    """first free number for generated helper names (a transformation may be applied twice to one file)"""
+    import re as _re
+    used = [int(m.group(1)) for n in ast.walk(tree) if isinstance(n, ast.FunctionDef) for m in [_re.fullmatch(_re.escape(prefix) + r"(?:block_)?(\d+)", n.name)] if m]
+    return max(used, default=0)
+
+
 def _locals_of(fn):
     names = {a.arg for a in fn.args.posonlyargs + fn.args.args + fn.args.kwonlyargs}
     if fn.args.vararg:
@@ -373,7 +380,7 @@ def t_extract(tree, rng):
     """extract method: the value of `return <expr>` / `x = <expr>` (a call-bearing expression without comprehension, lambda, yield, walrus)
     moves into a new private helper of the same class (or module) that takes the locals it reads as parameters"""
     done = False
-    counter = [0]
+    counter = [_next_index(tree, "_extracted_")]
     for cls in [n for n in ast.walk(tree) if isinstance(n, ast.ClassDef)] + [tree]:
         new_defs = []
         for fn in [n for n in cls.body if isinstance(n, (ast.FunctionDef,))]:
@@ -548,7 +555,7 @@ def t_extractblock(tree, rng):
     yield at any depth) moves into a new private method; the locals it reads and writes become parameters, the ones it writes are
     returned and re-bound at the call site (only statements all of whose written names are bound before, so nothing can be unbound)"""
     done = False
-    counter = [0]
+    counter = [_next_index(tree, "_extracted_block_")]
     for cls in [n for n in ast.walk(tree) if isinstance(n, ast.ClassDef)]:
         new_defs = []
         for fn in [n for n in cls.body if isinstance(n, ast.FunctionDef)]:
